@@ -31,6 +31,9 @@ type plan struct {
 func plans(c *core.Ctx) []plan {
 	q := c.Quick()
 	p := []plan{
+		{name: "opaque.lazy_tree.Node", k: 3, depth: 3, thin: true, dyn: true, wireN: 3},
+		{name: "goproto.proto.test.OpaqueLazy", k: 2, depth: 2, thin: true, wireN: 3, wireSmall: true},
+		{name: "goproto.proto.test.HybridLazy", k: 2, depth: 2, thin: true, wireN: 3, wireSmall: true},
 		{name: "goproto.proto.test.TestAllTypes", wireSmall: q, k: 2, depth: 2, dyn: true, wireN: 2, thin: q},
 		{name: "goproto.proto.test3.TestAllTypes", wireSmall: q, k: 2, depth: 2, dyn: true, wireN: 2, thin: q},
 		{name: "goproto.proto.testeditions.TestAllTypes", wireSmall: q, k: 2, depth: 2, thin: q, dyn: !q, wireN: 2},
@@ -41,7 +44,6 @@ func plans(c *core.Ctx) []plan {
 		{name: "goproto.proto.test.TestPackedTypes", k: 2, depth: 1, dyn: true, wireN: 2},
 		{name: "goproto.proto.test.TestUnpackedTypes", k: 2, depth: 1, dyn: true, wireN: 2},
 		{name: "goproto.proto.test.TestPackedExtensions", k: 2, depth: 1, dyn: true},
-		{name: "opaque.lazy_tree.Node", k: 3, depth: 3, thin: true, dyn: true, wireN: 3},
 		{name: "hybrid.lazy_tree.Node", k: 2, depth: 3, wireN: 2},
 		{name: "lazy_tree.Node", k: 2, depth: 3, thin: true},
 		{name: "goproto.proto.test.TestRequiredLazy", k: 2, depth: 2, wireN: 3, wireAll: true},
@@ -53,9 +55,7 @@ func plans(c *core.Ctx) []plan {
 		{name: "google.protobuf.Struct", k: 3, depth: 3, dyn: true},
 		{name: "google.protobuf.FieldDescriptorProto", k: 2, depth: 2, dyn: true},
 		{name: "lazy_normalized_wire_test.FTop", k: 3, depth: 2, wireN: 3, wireAll: true},
-		{name: "goproto.proto.test.OpaqueLazy", k: 3, depth: 2, thin: true, wireN: 2},
-		{name: "goproto.proto.test.OpenLazy", k: 3, depth: 2, thin: true, wireN: 2},
-		{name: "goproto.proto.test.HybridLazy", k: 3, depth: 2, thin: true, wireN: 2},
+		{name: "goproto.proto.test.OpenLazy", k: 2, depth: 2, thin: true, wireN: 2},
 		{name: "pb2.Scalars", k: 3, depth: 1, dyn: true},
 		{name: "pb2.Maps", k: 3, depth: 2, thin: true, dyn: true},
 		{name: "pb2.Nests", k: 3, depth: 3, dyn: true, wireN: 2},
